@@ -104,7 +104,8 @@ def run(ctx):
                 callbacks[s.name] = s
     # which nested functions are generators (called for values) and which are per-group callbacks (passed to apply)
     applied = {}
-    everything = list(be.env.values()) + [c for _, c, _, _ in be.calls] + [v for l in be.loops_done for v in l[2].values()]
+    everything = list(be.env.values()) + [c for _, c, _, _ in be.calls] + [v for l in be.loops_done for v in l[2].values()] + \
+        [v for _, v, _ in be.assign_log]
     for v in everything:
         for n in ast.walk(v):
             if isinstance(n, ast.Call) and isinstance(n.func, ast.Attribute) and n.func.attr == 'apply' and len(n.args) == 1 \
